@@ -47,6 +47,8 @@ func replayOther(o *hx.Out, k string, line []byte) {
 		replayLisk32(o, line)
 	case "id":
 		replayID(o, line)
+	case "store":
+		replayStore(o, line)
 	default:
 		panic("unknown record kind " + k)
 	}
